@@ -1253,6 +1253,8 @@ class TT():
 
             if self.__is_ttm:
 
+                if len(index)//2 - sum([i is None for i in index[:len(index)//2]]) > len(self.__N):
+                    raise InvalidArguments('Slice size is invalid.')
                 cores_new = []
                 k = 0
                 for i in range(len(index)//2):
@@ -1289,6 +1291,8 @@ class TT():
                 elif index[-1] == Ellipsis:
                     index = index[:-1] + (slice(None, None, None),) * \
                         (len(self.__N)-len(index)+1+num_none)
+                if len(index) - num_none > len(self.__N):
+                    raise InvalidArguments('Slice size is invalid.')
                 cores_new = []
                 k = 0
                 for i, idx in enumerate(index):
